@@ -2181,16 +2181,22 @@ fn main() {
                 let mut fut = Box::pin(consumer.consume(1));
                 let mut cx = std::task::Context::from_waker(std::task::Waker::noop());
                 let first = fut.as_mut().poll(&mut cx).is_ready();
+                // a waiter that is still pending must not be holding credit: dropping it there would lose the credit
+                let granted_by_now = if pos == 0 || (pos == 1 && !IN_WINDOW.load(Ordering::SeqCst)) { CREDIT.load(Ordering::SeqCst) } else { 0 };
+                let mut held_while_pending = !first && st.snapshot().link_credit < granted_by_now;
                 let mut second = first;
                 if !first {
                     if pos == 2 {
                         grant();
                     }
                     second = fut.as_mut().poll(&mut cx).is_ready();
+                    if !second && pos == 2 && st.snapshot().link_credit < CREDIT.load(Ordering::SeqCst) {
+                        held_while_pending = true;
+                    }
                 }
                 set_schedule_hook(None);
                 let c = st.snapshot().link_credit;
-                format!("{{\"first_ready\":{},\"second_ready\":{},\"credit_left\":{}}}", first, second, c)
+                format!("{{\"first_ready\":{},\"second_ready\":{},\"credit_left\":{},\"held_while_pending\":{}}}", first, second, c, held_while_pending)
             }
             // scn <name> <args..>: named scenarios of a real client against the scripted peer (mod sp)
             "scn" => {
